@@ -156,8 +156,17 @@ pub fn case_sexp(c: &KernCase) -> Vec<S> {
 // ------------------------------------------------------------------ pure stream
 
 fn gname(i: usize) -> GlyphName { GlyphName::new(design::GLYPH_NAMES[i]) }
-fn g1name(i: usize) -> KernGroup { KernGroup::Side1(format!("G{i}").into()) }
-fn g2name(i: usize) -> KernGroup { KernGroup::Side2(format!("H{i}").into()) }
+// Group names. Scheme A: G0, G1, …; scheme B (every fourth case): names that look like the class names the compiler
+// synthesizes when it splits a divergent group (`<group>_<n>`), so that a made-up name can collide with a real one.
+// Both lists are in ascending string order: the model numbers groups in name order.
+thread_local! { static NAME_SCHEME_B: std::cell::Cell<bool> = const { std::cell::Cell::new(false) }; }
+const NAMES_B: [&str; 10] = ["", "_1", "_1_1", "_2", "_2_1", "_3", "_4", "_5", "_6", "_7"];
+fn set_name_scheme(case_index: usize) { NAME_SCHEME_B.with(|c| c.set(case_index % 4 == 2)); }
+fn gstr(prefix: &str, i: usize) -> String {
+    if NAME_SCHEME_B.with(|c| c.get()) && i < NAMES_B.len() { format!("{prefix}{}", NAMES_B[i]) } else { format!("{prefix}{i}") }
+}
+fn g1name(i: usize) -> KernGroup { KernGroup::Side1(gstr("G", i).into()) }
+fn g2name(i: usize) -> KernGroup { KernGroup::Side2(gstr("H", i).into()) }
 
 fn ir_side(s: &KS, first: bool) -> KernSide {
     match s {
@@ -232,6 +241,7 @@ pub fn run(args: &Args) {
     let seed = args.seed;
     crate::run_cases("c09", args, move |i| {
         let mut rng = Rng::for_case(seed, "c09", i);
+        set_name_scheme(i);
         let n = 3 + rng.below(6);
         let k = 1 + rng.below(4);
         let case = gen_kern(&mut rng, n, k, false);
@@ -347,7 +357,7 @@ pub fn dump_gpos_kern(font: &FontRef) -> S {
 fn name_of(s: &KS, first: bool) -> String {
     match s {
         KS::G(g) => design::GLYPH_NAMES[*g].to_string(),
-        KS::C(c) => if first { format!("public.kern1.G{c}") } else { format!("public.kern2.H{c}") },
+        KS::C(c) => if first { format!("public.kern1.{}", gstr("G", *c)) } else { format!("public.kern2.{}", gstr("H", *c)) },
     }
 }
 
@@ -371,8 +381,8 @@ pub fn gen_e2e(rng: &mut Rng) -> design::Design {
     for (mk, mi) in case.masters.iter().zip(&full) {
         let m = &mut d.masters[*mi];
         m.kerning = mk.kerns.iter().map(|(a, b, v)| (name_of(a, true), name_of(b, false), *v)).collect();
-        m.groups = mk.groups1.iter().map(|(gi, ms)| (format!("public.kern1.G{gi}"), ms.iter().map(|g| design::GLYPH_NAMES[*g].to_string()).collect()))
-            .chain(mk.groups2.iter().map(|(gi, ms)| (format!("public.kern2.H{gi}"), ms.iter().map(|g| design::GLYPH_NAMES[*g].to_string()).collect())))
+        m.groups = mk.groups1.iter().map(|(gi, ms)| (format!("public.kern1.{}", gstr("G", *gi)), ms.iter().map(|g| design::GLYPH_NAMES[*g].to_string()).collect()))
+            .chain(mk.groups2.iter().map(|(gi, ms)| (format!("public.kern2.{}", gstr("H", *gi)), ms.iter().map(|g| design::GLYPH_NAMES[*g].to_string()).collect())))
             .collect();
     }
     d
@@ -382,6 +392,7 @@ pub fn run_e2e(args: &Args) {
     let seed = args.seed;
     crate::run_cases("c09e2e", args, move |i| {
         let mut rng = Rng::for_case(seed, "c09e2e", i);
+        set_name_scheme(i);
         let d = gen_e2e(&mut rng);
         e2e_fields(&d, "c09e2e")
     });
